@@ -18,9 +18,11 @@
 //
 // progs: per goroutine the list of API calls (0 Lock, 1 TryLock, 2 Unlock; the client skips Lock
 // while holding and Unlock while not holding); initpos: the point each goroutine parked at before
-// the first step; sched: goroutine ids in the order steps were granted; obs: five numbers per step,
+// the first step; sched: goroutine ids in the order steps were granted; obs: six numbers per step,
 // flattened (v, len(ch), point the stepping goroutine parked at afterwards (0 = finished), return events
-// (base 8: 1 Lock returned, 2 TryLock true, 3 TryLock false, 4 Unlock returned), occupancy);
+// (base 8: 1 Lock returned, 2 TryLock true, 3 TryLock false, 4 Unlock returned), occupancy,
+// 10*call+k = which API call the client is executing after the step (1 Lock, 2 TryLock, 3 Unlock,
+// 0 none) and how many steps it was granted inside it so far);
 // maximal: the run ended because no goroutine was enabled.
 //
 // -stress N adds N UNCONTROLLED runs (real goroutines, runtime.Gosched() injected at the points,
@@ -53,8 +55,8 @@ const (
 )
 
 type obs struct {
-	v                 int32
-	ch, pos, ret, occ int
+	v                     int32
+	ch, pos, ret, occ, cs int
 }
 
 type result struct {
@@ -98,11 +100,13 @@ func execute(progs [][]int, choose chooser, maxSteps int) result {
 					if t.Held {
 						continue
 					}
+					t.Call, t.Steps = 1, 0
 					m.Lock()
 					t.Held = true
 					cl.occ++
 					cl.ret = cl.ret*8 + 1
 				case opTryLock:
+					t.Call, t.Steps = 2, 0
 					if m.TryLock() {
 						t.Held = true
 						cl.occ++
@@ -116,11 +120,13 @@ func execute(progs [][]int, choose chooser, maxSteps int) result {
 					}
 					t.Held = false
 					t.Leaving = true // leaves the critical section with Unlock's first atomic step
+					t.Call, t.Steps = 3, 0
 					m.Unlock()
 					cl.ret = cl.ret*8 + 4
 				}
 			}
 			t.OpIdx = len(prog)
+			t.Call, t.Steps = 0, 0
 		}
 	}
 	for i := range progs {
@@ -169,6 +175,7 @@ func execute(progs [][]int, choose chooser, maxSteps int) result {
 			cl.occ--
 		}
 		res.sched = append(res.sched, ti)
+		t.Steps++
 		if !run.Step(t, watchdog) {
 			res.hung = true
 			break
@@ -178,7 +185,11 @@ func execute(progs [][]int, choose chooser, maxSteps int) result {
 			cl.occ--
 		}
 		v, l, _ = m.VerifState()
-		res.obs = append(res.obs, obs{v, l, t.Pos, cl.ret, cl.occ})
+		k := t.Steps
+		if k > 9 {
+			k = 9
+		}
+		res.obs = append(res.obs, obs{v, l, t.Pos, cl.ret, cl.occ, t.Call*10 + k})
 	}
 	res.panicked = cl.panicked
 	return res
@@ -213,7 +224,7 @@ func (r result) String() string {
 	}
 	os := make([]string, len(r.obs))
 	for i, o := range r.obs {
-		os[i] = fmt.Sprintf("%s;%d;%d;%d;%s", zs(int(o.v)), o.ch, o.pos, o.ret, zs(o.occ))
+		os[i] = fmt.Sprintf("%s;%d;%d;%d;%s;%d", zs(int(o.v)), o.ch, o.pos, o.ret, zs(o.occ), o.cs)
 	}
 	return fmt.Sprintf("Run [%s] %s %s [%s] %s %s %s", strings.Join(ps, ";"), ilist(r.initpos), ilist(r.sched),
 		strings.Join(os, ";"), bs(r.hung), bs(r.panicked), bs(r.maximal))
